@@ -1,6 +1,6 @@
 """Property table: which scenarios decide which property, run counts per tier, evidence rule text."""
 
-DETERMINISM_SCNS = ["C03"]
+DETERMINISM_SCNS = ["C03", "C04", "C05"]
 
 FP = ("distinct = distinct executed-schedule fingerprints (hash of the sequence of released yield sites / delivered events, "
       "without times)")
@@ -36,12 +36,40 @@ def register(prop):
          "both a stale and a non-stale claim; distinct = distinct (prior, claim sequence) tuples",
          assumptions=["claims about the observer itself are C02's subject and not generated here"])
 
+    prop("C04", [dict(scn="C04", quick=300, thorough=30000, wall_quick=120, wall_thorough=1800)],
+         "cluster plans: 2-8 real nodes, swarm config, NO loss, every packet/stream segment delivered within [0, ProbeTimeout/2), staggered/concurrent joins "
+         "(chain/star/mutual), UpdateNode, user broadcasts/messages, graceful Leave of some members (leavers keep running); invariant at every scheduler "
+         "step on every node: no non-leaver record suspect/dead, no suspicion timer, no suspect/dead broadcast queued about a non-leaver, no leave event "
+         "for a non-leaver, health score 0; non-trivial = >=2 nodes joined and probes ran; " + FP)
+    prop("C05", [dict(scn="C05", quick=150, thorough=8000, wall_quick=150, wall_thorough=2400)],
+         "cluster plans: 3-8 real nodes; faulty phase with loss/dup/delay/heavy-tail, stream cut/stall/refuse, timed partitions (one-way, UDP-only), crash, "
+         "same-address restart with reset incarnation and new meta, graceful leave, slow node, UpdateNode; faults stop at T_f; precondition (lists-graph connected) "
+         "evaluated from the nodes' tables; oracle: Members() of every live node == live set with owners' latest meta, nobody suspect, within W; "
+         "non-trivial = precondition true, >=2 live nodes, >=1 fault fired; " + FP,
+         assumptions=["W = 3*B(C03) + K*PushPullInterval + GossipToTheDeadTime with ((n-2)/(n-1))^K < 1e-12 (random peer selection makes W a budget, not a protocol constant)"])
+    prop("C07", [dict(scn="C07", quick=150, thorough=8000, wall_quick=120, wall_thorough=2400), dict(scn="C04", quick=100, thorough=5000, wall_quick=60, wall_thorough=900)],
+         "the fault-rich cluster histories of C05 (crash/restart/leave/partitions/loss) and the healthy histories of C04 with a recording EventDelegate on every node: "
+         "per-member pattern (join update* leave)*, replay of the log == set captured inside each callback (under the node lock) == Members() at every scheduler step "
+         "incl. meta, callbacks never overlap; non-trivial as in C05/C04; " + FP)
+
 NOT_CLAIMED = {}
 
 SIM_NOTE = ("trusted base: Go runtime + testing/synctest fake clock, the harness (scheduler, SimNet, oracles) under /verif/sim; "
             "assumes the guarded yield sites are the relevant preemption points; seeded search, not proof")
 
 META = {
+ "C04": dict(
+    level_text="Absence-of-event invariant (no suspicion, no accusation queued, no leave event, health 0) evaluated at every scheduler step of seeded healthy-cluster runs in which the delivery latency of every packet is drawn inside the stated bound; exploration over join orders, latency assignments and API interleavings.",
+    design_ref="DESIGN.md §3 C04", level_note=SIM_NOTE,
+    technique="deterministic simulation: seeded healthy-cluster runs with bounded-latency delivery, per-step invariant"),
+ "C05": dict(
+    level_text="Bounded-liveness check after a seeded fault phase: once faults stop and the lists-graph is connected, every live node's view must equal the live set (names, addresses, latest meta, nobody suspect) within a budget derived from the configuration.",
+    design_ref="DESIGN.md §3 C05", level_note=SIM_NOTE,
+    technique="deterministic simulation: seeded fault schedules (loss/dup/delay/partition/crash/restart/leave), convergence-within-budget oracle in virtual time"),
+ "C07": dict(
+    level_text="History check over recorded EventDelegate logs of every simulated node: pattern per member, replay equals the Members-equivalent set captured atomically inside each callback and equals Members() at every scheduler step, no overlapping callbacks.",
+    design_ref="DESIGN.md §3 C07", level_note=SIM_NOTE,
+    technique="deterministic simulation: recorded event history vs Members() refinement check at every scheduler step of fault-injected cluster runs"),
  "C01": dict(
     level_text="Seeded sequences of membership claims against one real node with an exact per-claim reference (SWIM precedence + permitted reclaim), through direct calls and the real packet ingest pipeline, in virtual time so record age vs reclaim/suspicion timers is exact; the same rank-monotonicity invariant runs as a monitor at every scheduler step of the cluster scenarios (C03/C04/C05). Exploration over thousands of (prior x claim) combinations that the 25 hand-picked unit tests do not reach.",
     design_ref="DESIGN.md §3 C01", level_note=SIM_NOTE,
